@@ -15,7 +15,7 @@ svdriver_c07: line protocol for the C07 model (SV.Overlay).  Strings travel hex-
   st.readdir | st.lookup <name> | st.report <msg> | st.fetched <n> | st.read
   stk.begin <trusted|user> <all|trusted|user>      -> ok
   stk.layer <path:kind:id:mode:rdev:xattrs;…>      -> ok          (kind d|f; parents first)
-  stk.merged <path>  |  stk.applied <path>         -> none | file L<layer> <mode> | dir L<layer> <mode>
+  stk.merged <path>  |  stk.applied <path>         -> none | file L<layer> | dir L<layer>
 -/
 namespace SV.Driver.C07
 open SV.Driver SV.Overlay
@@ -86,8 +86,8 @@ def setNode (s : St) (k : String) (d : Dir) (ns : NodeSt) : St :=
 
 def showNode : Option Node → String
   | none => "none"
-  | some (.file a) => s!"file L{a.tag} {a.mode}"
-  | some (.dir a) => s!"dir L{a.tag} {a.mode}"
+  | some (.file a) => s!"file L{a.tag}"
+  | some (.dir a) => s!"dir L{a.tag}"
 
 /-- Driver-only: put `n` at path `p` below `t` (parents exist, declared first). -/
 partial def insertAt (t : Tree) (p : List Str) (n : Tree) : Option Tree :=
